@@ -12,7 +12,8 @@ def _(p):
     from formulaic import model_matrix
 
     fam = [mc.T(f, l) for f, l in p["terms"]]
-    df = mc.full_frame(p["a"], p["b"], index=p.get("index"))
+    layout = p.get("layout") or "crossed7"
+    df = mc.full_frame(p["a"], p["b"], index=p.get("index"), layout=layout)
     kw = {"materializer": p["materializer"]} if p.get("materializer") else {}
     mm = model_matrix(p["formula"], df, ensure_full_rank=p["efr"], output=p["output"], **kw)
     if p["output"] == "sparse":
@@ -22,7 +23,7 @@ def _(p):
         labels, cells = mc.matrix_cells(mm, p["output"])
     if p["output"] == "pandas" and list(mm.columns) != labels:
         return f"labels-differ-from-spec: {list(mm.columns)} vs {labels}"
-    w = mc.world(p["a"], p["b"])
+    w = mc.layout_world(layout, p["a"], p["b"])
     for j, label in enumerate(labels):
         try:
             wants = [w.column(label, scale=sc) for sc in mc.term_scales_for_label(label, fam, w)]
